@@ -220,7 +220,7 @@ class FakeSocket(FakeConn):
 
 
 class World:
-    def __init__(self, kind, reconnect_timeout, version="2.2"):
+    def __init__(self, kind, reconnect_timeout, version="2.2", save_fails=False):
         import mysensors.gateway_serial as gs
         import mysensors.gateway_tcp as gt
         import mysensors.mysensors as api
@@ -304,10 +304,18 @@ class World:
         gt.socket = SocketShim
         gt.select = SelectShim
         gs.serial.serial_for_url = lambda port, baud=None, **kw: world._dial(("serial", port, baud), None)
+        # a gateway with persistence whose final save (inside stop()) fails: disk full
+        pkw = {}
+        if save_fails:
+            import tempfile
+
+            self._pdir = tempfile.mkdtemp(prefix="vf_c20_")
+            pkw = {"persistence": True, "persistence_file": self._pdir + "/net.json"}
         if kind == "serial":
-            self.gw = api.SerialGateway("/dev/ttyFAKE", reconnect_timeout=reconnect_timeout, protocol_version=version)
+            self.gw = api.SerialGateway("/dev/ttyFAKE", reconnect_timeout=reconnect_timeout, protocol_version=version, **pkw)
         else:
-            self.gw = api.TCPGateway("10.0.0.1", reconnect_timeout=reconnect_timeout, protocol_version=version)
+            self.gw = api.TCPGateway("10.0.0.1", reconnect_timeout=reconnect_timeout, protocol_version=version, **pkw)
+        self._arm_save_failure(save_fails)
         self.gw.on_conn_made = self._on_made
         self.gw.on_conn_lost = self._on_lost
 
@@ -424,11 +432,25 @@ class World:
         self.gw.start()
         self.settle()
 
+    def _arm_save_failure(self, save_fails):
+        self.stop_raised = None
+        if not save_fails:
+            return
+
+        def no_space():
+            raise OSError(28, "No space left on device")
+
+        self.gw.tasks.persistence.save_sensors = no_space
+
     def stop(self):
         live = self.live_conn()
         self.user_closing = True
         try:
             self.gw.stop()
+        except OSError as exc:
+            if "No space left" not in str(exc):
+                raise
+            self.stop_raised = exc  # the injected save failure; stop() must have shut the link down regardless
         finally:
             self.user_closing = False
         self.stopped_at = self.sim.now
@@ -494,6 +516,10 @@ class World:
 
     def close(self):
         gs, gt, task = self._mods
+        if getattr(self, "_pdir", None):
+            import shutil
+
+            shutil.rmtree(self._pdir, ignore_errors=True)
         try:
             if self.stopped_at is None:
                 try:
